@@ -41,7 +41,8 @@ def check(run: Run, prog: Program, model: Model, tier: str) -> None:
         "SubstitutionError; every partial operation is total for the kind the validation established or is caught "
         "and converted; the `...` marker of a list shape is never the receiver of a call or attribute access; an "
         "any-schema is never returned without alternatives; validation with a raise on errors dominates every normal "
-        "return. substitute(substitute(S, v), v) == substitute(S, v) is not decided.")
+        "return. substitute(substitute(S, v), v) == substitute(S, v) is not decided."
+        " The validator the substitutor runs rejects exactly the relation each length prop means (guarded by `is Nil`), and the conversion path is free of equality-keyed memoisation.")
     run.rule_text = ("obligations per (visit method, prop-set/shape); non-trivial = paths with partial operations, handlers or markers")
     run.trusted += ["visitor contracts of DESIGN appendix B", "partial-operation table"]
     run.assumptions += ["NotImplementedError from Substitutor.visit for hook-less foreign schema classes is outside visit_* and exempt"]
